@@ -21,9 +21,12 @@ contract("monkeytype.stubs:shrink_traced_types", props=["C01", "C04", "C14"], th
              "post:wf": "forall(result[0], lambda n: wf_rw(lookup(result[0], n)) and lookup(result[0], n) is not ELLIPSIS_) and is_dictlike_(result[0])"
                         " and implies(result[1] is not None, wf_rw(result[1]) and result[1] is not ELLIPSIS_) and implies(result[2] is not None, wf_rw(result[2]) and result[2] is not ELLIPSIS_)",
          },
+         hints={"ret-witness": "implies(len(L_return_types) > 0, has(L_return_types, nth(L_return_types, 0)))",
+                "yld-witness": "implies(len(L_yield_types) > 0, has(L_yield_types, nth(L_yield_types, 0)))"},
          loops={0: {"iter": "traces",
                     "inv": {"args": "forall(range_(0, _i), lambda j: forall(nth(traces, j).arg_types, lambda n: has(arg_types, n) and has(lookup(arg_types, n), lookup(nth(traces, j).arg_types, n))))",
-                            "args-from": "forall(arg_types, lambda n: exists(range_(0, _i), lambda j: has(nth(traces, j).arg_types, n)) and forall(lookup(arg_types, n), lambda ty: wf_rw(ty) and ty is not ELLIPSIS_ and ty is not None) and len(lookup(arg_types, n)) >= 1)",
+                            "args-from": "forall(arg_types, lambda n: exists(range_(0, _i), lambda j: has(nth(traces, j).arg_types, n)) and forall(lookup(arg_types, n), lambda ty: wf_rw(ty) and ty is not ELLIPSIS_ and ty is not None) and len(lookup(arg_types, n)) >= 1 and is_dictlike_(lookup(arg_types, n)))",
+                            "sets": "is_dictlike_(return_types) and is_dictlike_(yield_types)",
                             "ret": "forall(range_(0, _i), lambda j: implies(nth(traces, j).return_type is not None, has(return_types, nth(traces, j).return_type)))",
                             "ret-from": "forall(return_types, lambda ty: wf_rw(ty) and ty is not ELLIPSIS_ and ty is not None and exists(range_(0, _i), lambda j: nth(traces, j).return_type is ty))",
                             "yld": "forall(range_(0, _i), lambda j: implies(nth(traces, j).yield_type is not None, has(yield_types, nth(traces, j).yield_type)))",
@@ -33,7 +36,7 @@ contract("monkeytype.stubs:shrink_traced_types", props=["C01", "C04", "C14"], th
                     "inv": {"done": "forall(range_(0, _i), lambda q: has(arg_types, nth(t.arg_types, q)) and has(lookup(arg_types, nth(t.arg_types, q)), lookup(t.arg_types, nth(t.arg_types, q))))",
                             "kept": "forall(pre_loop('arg_types'), lambda n: has(arg_types, n) and forall(lookup(pre_loop('arg_types'), n), lambda ty: has(lookup(arg_types, n), ty)))",
                             "from": "forall(arg_types, lambda n: (has(pre_loop('arg_types'), n) or exists(range_(0, _i), lambda q: nth(t.arg_types, q) is n))"
-                                    " and len(lookup(arg_types, n)) >= 1 and forall(lookup(arg_types, n), lambda ty: wf_rw(ty) and ty is not ELLIPSIS_ and ty is not None))",
+                                    " and len(lookup(arg_types, n)) >= 1 and is_dictlike_(lookup(arg_types, n)) and forall(lookup(arg_types, n), lambda ty: wf_rw(ty) and ty is not ELLIPSIS_ and ty is not None))",
                             "dictlike": "is_dictlike_(arg_types)"}},
                 "tags": {"arg_types": "DDict:set", "return_types": "set", "yield_types": "set"}})
 
